@@ -27,7 +27,7 @@ SUFFIX = "_rev"
 @st.composite
 def cases(draw):
     bn = draw(st.integers(0, 3)) == 0
-    g = draw(gg.general(bnodes=bn, inst_props=(RDF_TYPE, RDF_TYPE, RDF_TYPE, "http://ex.org/isA"), iri_like_literals=draw(st.integers(0, 3)) == 0))
+    g = draw(gg.general(bnodes=bn, inst_props=(RDF_TYPE, RDF_TYPE, RDF_TYPE, "http://ex.org/isA"), iri_like_literals=draw(st.integers(0, 3)) == 0, quirks=draw(gg.quirk_set(one_in=4))))
     cfg = draw(gg.switches(extra=("disable_exact_cardinality",)))
     cfg["instances_report_mode"] = "mixed"
     if draw(st.integers(0, 3)) == 0:
